@@ -434,3 +434,36 @@ def header_oracle(header, data):
         if len(l.split("\t")) != len(names):
             return f"a data line has {len(l.split(chr(9)))} fields, the header names {len(names)} columns"
     return None
+
+
+def c02_record_frac(rec, idx, refs, qrys, tol=0.051):
+    """C02 for inputs whose coordinates carry one decimal (real CMAP files): the same clauses as `c02_record`, the written
+    one-decimal numbers compared numerically (half a unit of the last written digit, plus float slack)"""
+    def near(a, b):
+        return abs(float(a) - float(b)) <= tol
+    if rec["_n"] != 15:
+        return f"{rec['_n']} columns"
+    rid, qid = int(rec["RefContigID"]), int(rec["QryContigID"])
+    if rid not in refs or qid not in qrys:
+        return "ids do not name input maps"
+    rlen, rpos = refs[rid]
+    qlen, qpos = qrys[qid]
+    if not near(rec["RefLen"], int(rlen)):
+        return f"RefLen {rec['RefLen']} != {int(rlen)}"
+    if not near(rec["QryLen"], qpos[-1] - qpos[0] + 1):
+        return f"QryLen {rec['QryLen']} != last-first+1 = {qpos[-1] - qpos[0] + 1:.1f}"
+    ps = rec["_pairs"]
+    if not ps or c01_record(rec, refs, qrys):
+        return None
+    if not near(rec["RefStartPos"], rpos[ps[0][0] - 1]) or not near(rec["RefEndPos"], rpos[ps[-1][0] - 1]):
+        return "RefStartPos/RefEndPos are not the coordinates of the first/last listed reference labels"
+    rev = rec["Orientation"] == "-"
+    if not rev:
+        s, e = qpos[ps[0][1] - 1] - qpos[0], qpos[ps[-1][1] - 1] - qpos[0]
+    else:
+        s, e = qpos[-1] - qpos[ps[-1][1] - 1], qpos[-1] - qpos[ps[0][1] - 1]
+    if not near(rec["QryStartPos"], s) or not near(rec["QryEndPos"], e):
+        return f"QryStartPos/QryEndPos {rec['QryStartPos']}/{rec['QryEndPos']} != {s:.1f}/{e:.1f}"
+    if float(rec["QryStartPos"]) < -tol or float(rec["QryEndPos"]) < -tol:
+        return "a query coordinate of the record is negative"
+    return None
